@@ -155,6 +155,12 @@ func runC15(r *simkit.Run) {
 		}
 		cfg.Outcome = "status:" + code.String()
 		outcome = st.Err()
+		if tp.Chance(1, 4) {
+			// the same status inside a permanent error (what an OTLP exporter further down the pipeline returns for a
+			// non-retryable response): still "a consumer error carrying an explicit gRPC status"
+			cfg.Outcome = "status-in-permanent:" + code.String()
+			outcome = consumererror.NewPermanent(st.Err())
+		}
 	}
 	cfg.Auth = tp.Chance(1, 4)
 	cfg.Creds = !cfg.Auth || tp.Chance(2, 3)
